@@ -44,23 +44,27 @@ theorem doOp_hu (ts : Int) (h : Hook) (op : OpSpec) (st : St) : HURel (doOp ts h
   | some s =>
     simp only []
     split
-    · exact HURel.cons_silent _ (fun _ => rfl) (HURel.refl _)
     · split
       · exact HURel.cons_silent _ (fun _ => rfl) (HURel.refl _)
-      · intro i
-        show ((st.ms.set op.m { s with hasUpdate := true })[i]?).map (·.hasUpdate) = _
-        rw [List.getElem?_set]
-        by_cases hi : op.m = i
-        · subst hi
-          have hlt : op.m < st.ms.length := by
-            by_contra hc
-            have : st.ms[op.m]? = none := List.getElem?_eq_none (by omega)
-            rw [this] at hs; cases hs
-          simp [hlt, hs, anyOk, okOn]
-        · simp only [hi, if_false]
-          congr 1
-          funext s'
-          simp [anyOk, okOn, hi]
+      · exact HURel.cons_silent _ (fun _ => rfl) (HURel.refl _)
+    · split
+      · exact HURel.cons_silent _ (fun _ => rfl) (HURel.refl _)
+      · split
+        · exact HURel.cons_silent _ (fun _ => rfl) (HURel.refl _)
+        · intro i
+          show ((st.ms.set op.m { s with hasUpdate := true })[i]?).map (·.hasUpdate) = _
+          rw [List.getElem?_set]
+          by_cases hi : op.m = i
+          · subst hi
+            have hlt : op.m < st.ms.length := by
+              by_contra hc
+              have : st.ms[op.m]? = none := List.getElem?_eq_none (by omega)
+              rw [this] at hs; cases hs
+            simp [hlt, hs, anyOk, okOn]
+          · simp only [hi, if_false]
+            congr 1
+            funext s'
+            simp [anyOk, okOn, hi]
 
 theorem runOps_hu (ts : Int) (h : Hook) : ∀ (ops : List OpSpec) (st : St), HURel (runOps ts h ops st).1 st.ms (runOps ts h ops st).2.ms
   | [], st => HURel.refl _
